@@ -37,11 +37,64 @@ def solid_rhs(y, r, l, rho, K, mu, freq, G, static, incompressible):
     return np.array([dy1, dy2, dy3, dy4, dy5, dy6], dtype=np.complex128)
 
 
+def liquid_dynamic_rhs(y, r, l, rho, K, freq, G, incompressible):
+    """LiquidDynamicCompressible / LiquidDynamicIncompressible of odes.pyx; y = (y1, y2, y5, y6)"""
+    y1, y2, y5, y6 = y
+    llp1, lp1, lm1 = l * (l + 1.0), l + 1.0, l - 1.0
+    g = 4.0 / 3.0 * math.pi * G * rho * r
+    r_inv = 1.0 / r
+    density_gravity = rho * g
+    dyn_no_r = -freq * freq * rho
+    dynamic_term = dyn_no_r * r
+    grav_term = 4.0 * math.pi * G * rho
+    y3 = (y2 - density_gravity * y1 + rho * y5) / dynamic_term
+    y1_y3 = 2.0 * y1 - llp1 * y3
+    if not incompressible:
+        dy1 = y2 / K - y1_y3 * r_inv
+        dy2 = y1 * (dyn_no_r - 2.0 * density_gravity * r_inv) + y5 * rho * lp1 * r_inv - y6 * rho - y1_y3 * density_gravity * r_inv
+    else:
+        dy1 = y1_y3 * -r_inv
+        dy2 = r_inv * (y1 * (dynamic_term - 2.0 * density_gravity) + y5 * rho * lp1 + y6 * -rho * r + y1_y3 * -density_gravity)
+    dy5 = y1 * grav_term - y5 * lp1 * r_inv + y6
+    dy6 = r_inv * (lm1 * (y1 * grav_term + y6) + y1_y3 * grav_term)
+    return np.array([dy1, dy2, dy5, dy6], dtype=np.complex128)
+
+
+def liquid_static_rhs(y, r, l, rho, G):
+    """LiquidStatic* of odes.pyx; y = (y5, y7)"""
+    y5, y7 = y
+    g = 4.0 / 3.0 * math.pi * G * rho * r
+    grav_term = 4.0 * math.pi * G * rho / g
+    r_inv = 1.0 / r
+    return np.array([y5 * (grav_term - (l + 1.0) * r_inv) + y7, y5 * 2.0 * (l - 1.0) * r_inv * grav_term + y7 * ((l - 1.0) * r_inv - grav_term)], dtype=np.complex128)
+
+
 def start_vectors(layer_type, static, incompressible, kamata, freq, r, rho, K, mu, l, G, nsol=3, nys=6):
     from TidalPy.RadialSolver.starting.driver import find_starting_conditions
     a = np.full((nsol, nys), np.nan, dtype=np.complex128)
     find_starting_conditions(layer_type, int(static), int(incompressible), bool(kamata), float(freq), float(r), float(rho), float(K), complex(mu), int(l), float(G), a)
     return a
+
+
+def ode_residual_liquid(static, incompressible, kamata, freq, r, rho, K, l, G, h_rel=2e-3):
+    """the same predicate for a liquid innermost layer: 1 vector (y5, y7) if static, 2 vectors (y1, y2, y5, y6) if dynamic"""
+    nsol, nys = (1, 2) if static else (2, 4)
+    h = h_rel * r
+    S = {k: start_vectors(1, static, incompressible, kamata, freq, r + k * h, rho, K, 0j, l, G, nsol, nys) for k in (-2, -1, 0, 1, 2)}
+    dS = (S[-2] - 8.0 * S[-1] + 8.0 * S[1] - S[2]) / (12.0 * h)
+    s0 = S[0]
+    scale = np.max(np.abs(s0), axis=0)
+    scale = np.where(scale == 0, 1.0, scale)
+    scale_d = scale / r
+    B = (s0 / scale).T
+    out = []
+    for i in range(nsol):
+        rhs = liquid_static_rhs(s0[i], r, l, rho, G) if static else liquid_dynamic_rhs(s0[i], r, l, rho, K, freq, G, incompressible)
+        defect = (dS[i] - rhs) / scale_d
+        coef = np.linalg.lstsq(B, defect, rcond=None)[0]
+        perp = defect - B @ coef
+        out.append(float(np.linalg.norm(perp) / max(np.linalg.norm(rhs / scale_d), 1e-300)))
+    return out
 
 
 def ode_residual(static, incompressible, kamata, freq, r, rho, K, mu, l, G, h_rel=2e-3):
